@@ -225,3 +225,105 @@ Proof.
   unfold eval_sum. cbn [arr_of bind is_arr negb shape_of].
   destruct axes as [|a0 ax]; [congruence|]. fold rsh. unfold rsh in E |- *. rewrite E. reflexivity.
 Qed.
+
+(* ------------------------------------------------------------------ cumulative sum *)
+Lemma set_nth_in_shape idx sh : in_shape idx sh -> forall axis t,
+  (axis < length sh)%nat -> 0 <= t < nth axis sh 0 -> in_shape (set_nth idx axis t) sh.
+Proof.
+  induction 1 as [|x d idx sh Hx Hin IH]; intros [|k] t Hk Ht; cbn in *; try lia.
+  - constructor; auto.
+  - constructor; auto. apply IH; auto. lia.
+Qed.
+
+Lemma flat_pos_set_nth_lt idx sh : in_shape idx sh -> forall axis t,
+  (axis < length sh)%nat -> 0 <= t < nth axis idx 0 ->
+  flat_pos (set_nth idx axis t) sh < flat_pos idx sh.
+Proof.
+  induction 1 as [|x d idx sh Hx Hin IH]; intros [|k] t Hk Ht; cbn [set_nth flat_pos nth length] in *; try lia.
+  - pose proof (prod_list_pos sh (in_shape_valid _ _ Hin)). nia.
+  - specialize (IH k t ltac:(lia) Ht). lia.
+Qed.
+
+Lemma set_nth_set_nth {A} (l : list A) i a b : set_nth (set_nth l i a) i b = set_nth l i b.
+Proof. revert i; induction l as [|x l IH]; intros [|i]; cbn; auto. now rewrite IH. Qed.
+
+Lemma set_nth_nth_id {A} (l : list A) i d : (i < length l)%nat -> set_nth l i (nth i l d) = l.
+Proof. revert i; induction l as [|x l IH]; intros [|i] H; cbn in *; try lia; auto. rewrite IH by lia. reflexivity. Qed.
+
+Theorem cumsum_spec sh st axis values :
+  valid_shape sh -> 0 <= axis < Z.of_nat (length sh) -> length values = Z.to_nat (prod_list sh) ->
+  Forall (fun e => 0 <= e < modulus st) values ->
+  exists r, eval_cum_sum (TArray sh st) axis (VArr values) = Ok (VArr r) /\
+    length r = length values /\
+    forall idx, in_shape idx sh ->
+      get r sh idx = cumsum_at values sh (Z.to_nat axis) idx mod modulus st.
+Proof.
+  intros Hv Hax Hl Hrange. pose proof (modulus_pos st) as Hm. pose proof (prod_list_pos sh Hv) as Hp.
+  set (ax := Z.to_nat axis).
+  set (C := fun i => cumsum_at values sh ax (unravel i sh) mod modulus st).
+  set (n := length values).
+  set (Inv := fun (k : nat) (out : list Z) =>
+     length out = n /\ forall i, 0 <= i < Z.of_nat n ->
+       nth (Z.to_nat i) out 0 = if i <? Z.of_nat k then C i else nth (Z.to_nat i) values 0).
+  destruct (fold_left_result_inv
+    (fun out i =>
+                     let* index := number_to_index i sh in
+                     let* a := znth index axis in
+                     if 0 <? a then
+                       let* index' := upd index axis (a - 1) in
+                       let* j := index_to_number index' sh in
+                       let* oi := znth out i in let* oj := znth out j in
+                       upd out i (k_add st oi oj)
+                     else Ok out) Inv n values) as (r & E & HI).
+  - split; [reflexivity|]. intros i Hi. replace (i <? Z.of_nat 0) with false by lia. reflexivity.
+  - intros k out Hk (Lo & Ho).
+    destruct (number_to_index_unravel sh (Z.of_nat k) Hv ltac:(lia)) as (E1 & Hin & Hf).
+    rewrite E1. cbn [bind]. set (idx := unravel (Z.of_nat k) sh) in *.
+    pose proof (in_shape_length _ _ Hin) as Li.
+    rewrite (znth_ok idx axis 0) by lia. cbn [bind]. fold ax.
+    pose proof (in_shape_nth idx sh ax Hin ltac:(lia)) as Ra.
+    set (a := nth ax idx 0) in *.
+    assert (Ck : C (Z.of_nat k) =
+                 (zsum (fun t => get values sh (set_nth idx ax t)) a + nth k values 0) mod modulus st).
+    { unfold C. fold idx. unfold cumsum_at. fold a. rewrite zsum_succ by lia.
+      rewrite (zsum_ext _ (fun t => get values sh (set_nth idx ax t))) by (intros; now rewrite set_axis_set_nth).
+      f_equal. f_equal. rewrite set_axis_set_nth. unfold a. rewrite set_nth_nth_id by lia.
+      unfold get. rewrite Hf. now rewrite Nat2Z.id. }
+    destruct (0 <? a) eqn:Ea.
+    + rewrite upd_ok by lia. cbn [bind]. fold ax.
+      assert (Hin' : in_shape (set_nth idx ax (a - 1)) sh) by (apply set_nth_in_shape; auto; lia).
+      rewrite (index_to_number_flat_pos _ _ Hin'). cbn [bind].
+      pose proof (flat_pos_range _ _ Hin') as Rj.
+      pose proof (flat_pos_set_nth_lt idx sh Hin ax (a - 1) ltac:(lia) ltac:(fold a; lia)) as Lj.
+      rewrite Hf in Lj. set (j := flat_pos (set_nth idx ax (a - 1)) sh) in *.
+      rewrite (znth_ok out (Z.of_nat k) 0) by lia. cbn [bind].
+      rewrite (znth_ok out j 0) by lia. cbn [bind].
+      rewrite upd_ok by lia. eexists. split; [reflexivity|]. split; [now rewrite set_nth_length|].
+      intros i Hi. rewrite nth_set_nth by lia.
+      destruct (Nat.eqb_spec (Z.to_nat i) (Z.to_nat (Z.of_nat k))) as [Ei|Ei].
+      * assert (i = Z.of_nat k) by lia. subst i. replace (Z.of_nat k <? Z.of_nat (S k)) with true by lia.
+        rewrite Ck. rewrite k_add_mod. rewrite (Ho (Z.of_nat k)) by lia.
+        replace (Z.of_nat k <? Z.of_nat k) with false by lia.
+        rewrite (Ho j) by lia. replace (j <? Z.of_nat k) with true by lia.
+        unfold C. unfold j at 1. rewrite unravel_flat_pos by auto. unfold cumsum_at.
+        rewrite (nth_set_nth idx ax ax (a - 1) 0) by lia. rewrite Nat.eqb_refl.
+        replace (a - 1 + 1) with a by lia.
+        rewrite (zsum_ext _ (fun t => get values sh (set_nth idx ax t)))
+          by (intros; now rewrite set_axis_set_nth, set_nth_set_nth).
+        rewrite Nat2Z.id. rewrite Zplus_mod_idemp_r. f_equal. lia.
+      * rewrite Ho by lia. replace (i <? Z.of_nat (S k)) with (i <? Z.of_nat k) by lia. reflexivity.
+    + exists out. split; [reflexivity|]. split; [exact Lo|].
+      intros i Hi. rewrite Ho by lia.
+      destruct (Z.eq_dec i (Z.of_nat k)) as [->|Ne].
+      * replace (Z.of_nat k <? Z.of_nat k) with false by lia.
+        replace (Z.of_nat k <? Z.of_nat (S k)) with true by lia.
+        rewrite Ck. assert (a = 0) by lia. replace a with 0 by lia. rewrite zsum_0. rewrite Z.add_0_l.
+        rewrite Nat2Z.id. rewrite Forall_forall in Hrange.
+        symmetry. apply Z.mod_small. apply Hrange. apply nth_In. lia.
+      * replace (i <? Z.of_nat (S k)) with (i <? Z.of_nat k) by lia. reflexivity.
+  - destruct HI as (Lr & Hr). exists r. split; [|split; [exact Lr|]].
+    + unfold eval_cum_sum. cbn [arr_of bind]. fold n. rewrite E. reflexivity.
+    + intros idx Hin. unfold get. pose proof (flat_pos_range _ _ Hin) as R.
+      rewrite Hr by lia. replace (flat_pos idx sh <? Z.of_nat n) with true by lia.
+      unfold C. now rewrite unravel_flat_pos.
+Qed.
